@@ -11,6 +11,9 @@ import (
 	"golang.org/x/tools/go/ssa"
 )
 
+// NativeFn is an engine-provided callable (used for stubbed method sets).
+type NativeFn func(w *Worker, args []Value) Value
+
 // targetPanic is a panic of the interpreted program.
 type targetPanic struct {
 	V    Value
@@ -206,8 +209,20 @@ func (w *Worker) prepareCall(fr *frame, call *ssa.CallCommon, instr ssa.Instruct
 		if recv.T == nil {
 			fr.rtPanic(instr, "invalid memory address or nil pointer dereference (method "+call.Method.Name()+" invoked on nil interface)")
 		}
-		f := w.E.Prog.LookupMethod(recv.T, call.Method.Pkg(), call.Method.Name())
+		var f *ssa.Function
+		if w.E.Prog.MethodSets.MethodSet(recv.T).Lookup(call.Method.Pkg(), call.Method.Name()) != nil {
+			f = w.E.Prog.LookupMethod(recv.T, call.Method.Pkg(), call.Method.Name())
+		}
 		if f == nil {
+			if call.Method.Name() == "Interface" && w.isProtoStub(recv) {
+				// stubbed protoreflect.Message: Interface() gives the generated struct back
+				fn = NativeFn(func(w *Worker, args []Value) Value { return args[0].(Iface) })
+				args = append(args, recv)
+				for _, arg := range call.Args {
+					args = append(args, fr.get(arg))
+				}
+				return
+			}
 			panic(pathAbort{"engine", fmt.Sprintf("method set for dynamic type %v does not contain %s", recv.T, call.Method)})
 		}
 		fn = f
@@ -230,6 +245,8 @@ func (w *Worker) call(caller *frame, pos token.Pos, fn Value, args []Value) Valu
 		return w.callSSA(caller, pos, fn.Fn, args, fn.Env)
 	case *ssa.Builtin:
 		return w.callBuiltin(caller, pos, fn, args)
+	case NativeFn:
+		return fn(w, args)
 	}
 	panic(pathAbort{"engine", fmt.Sprintf("cannot call %T", fn)})
 }
